@@ -199,6 +199,10 @@ def generate(seed, prop, tier, index=0):
     timed = [s for s in cfg["states"] if s["kind"] == "timed"]
     ops = []
     engaged_prev = rng.random() < 0.5
+    # a second live machine of the same class, driven by its own history between the first one's ops
+    twin = (not cfg["asm"]) and rng.random() < 0.2
+    cfg["twin"] = twin
+    model_b = _mk_model(dict(cfg, pre_nt={}), clock) if twin else None
 
     def emit(op):
         ops.append(op)
@@ -207,6 +211,14 @@ def generate(seed, prop, tier, index=0):
         except Inconclusive:
             pass
         model.take()
+
+    def emit_b(op):
+        ops.append(["@", op])
+        try:
+            _apply_model(model_b, clock, cfg, op)
+        except Inconclusive:
+            pass
+        model_b.take()
 
     if cfg["asm"]:
         emit(["enable"])
@@ -250,7 +262,16 @@ def generate(seed, prop, tier, index=0):
                 if rng.random() < 0.5:
                     emit(["engage", None, False, False])
         emit(["exec", _gen_acts(rng, cfg, style)])
-        emit(["adv", _pick_dt(rng, cfg, style, model, clock.us)])
+        if twin:
+            r = rng.random()
+            if r < 0.7:
+                emit_b(["engage", None, False, False])
+            if rng.random() < 0.1:
+                emit_b(rng.choice([["done"], ["disable"]]))
+            if timed and rng.random() < 0.05:
+                emit_b(_gen_ntdur(rng, cfg, timed))
+            emit_b(["exec", _gen_acts(rng, cfg, style)])
+        emit(["adv", _pick_dt(rng, cfg, style, model_b if twin and rng.random() < 0.4 else model, clock.us)])
     return {"engine": ENGINE, "property": prop, "seed": seed, "config": cfg, "ops": ops}
 
 
@@ -369,11 +390,12 @@ class _Harness:
         self.world = world
         self.events = []
         self.acts = []
-        self.dsubs = {}
+        self.ctx_of = {}
         self.default_name = None
 
     def call(self, inst, name, cls, args):
-        sub = self.dsubs.get(name)
+        c = self.ctx_of.get(id(inst))
+        sub = c.dsubs.get(name) if c is not None else None
         act = self.acts.pop(0) if self.acts else None
         if name == self.default_name:
             act = None      # default states perform no in-state action (outside the properties' quantifier)
@@ -435,34 +457,45 @@ def execute(plan, trace=False):
     H.default_name = cfg.get("default")
     prefix = "autonomous" if cfg["asm"] else "components"
     nt = ntcore.NetworkTableInstance.getDefault()
-    base_key = f"/{prefix}/{cfg['cname']}/state"
     sdef = {s["name"]: s for s in cfg["states"]}
-    pubs = {}
-    for s in cfg["states"]:
-        if s["kind"] == "timed":
-            t = nt.getTopic(f"{base_key}/{s['name']}_duration")
-            pubs[s["name"]] = (ntcore.IntegerTopic(t) if isinstance(s["duration"], int) else ntcore.DoubleTopic(t)).publish()
-    for nm, v in cfg["pre_nt"].items():
-        if nm in pubs:
-            pubs[nm].set(v)
-    for s in cfg["states"]:
-        if s["kind"] == "timed":
-            t = nt.getTopic(f"{base_key}/{s['name']}_duration")
-            H.dsubs[s["name"]] = (ntcore.IntegerTopic(t) if isinstance(s["duration"], int) else ntcore.DoubleTopic(t)).subscribe(-1)
-    cs_sub = ntcore.StringTopic(nt.getTopic(f"{base_key}/current_state")).subscribe("<unset>")
-
-    def new_instance():
-        inst = Leaf()
-        inst.logger = logging.getLogger(cfg["cname"])
-        setup_tunables(inst, cfg["cname"], prefix)
-        return inst
-
     vclock = _VClock(cfg["boot_us"])
-    model = _mk_model(cfg, vclock)
-    inst = new_instance()
-    asm_enabled_once = False
 
-    history = []           # for the invariant checkers
+    class Ctx:
+        """one live machine: the implementation object, its reference model, its NetworkTables handles"""
+
+    def make_ctx(k):
+        c = Ctx()
+        c.k = k
+        c.cname = cfg["cname"] if k == 0 else cfg["cname"] + "_b"
+        base_key = f"/{prefix}/{c.cname}/state"
+        c.pubs, c.dsubs = {}, {}
+        for st in cfg["states"]:
+            if st["kind"] == "timed":
+                t = nt.getTopic(f"{base_key}/{st['name']}_duration")
+                typ = ntcore.IntegerTopic if isinstance(st["duration"], int) else ntcore.DoubleTopic
+                c.pubs[st["name"]] = typ(t).publish()
+                c.dsubs[st["name"]] = typ(t).subscribe(-1)
+        if k == 0:
+            for nm, v in cfg["pre_nt"].items():
+                if nm in c.pubs:
+                    c.pubs[nm].set(v)
+        c.cs_sub = ntcore.StringTopic(nt.getTopic(f"{base_key}/current_state")).subscribe("<unset>")
+        c.model = _mk_model(cfg if k == 0 else dict(cfg, pre_nt={}), vclock)
+        c.asm_enabled_once = False
+        c.history = []
+        c.inst = None
+        return c
+
+    def new_instance(c):
+        c.inst = Leaf()
+        c.inst.logger = logging.getLogger(c.cname)
+        setup_tunables(c.inst, c.cname, prefix)
+        H.ctx_of[id(c.inst)] = c
+
+    ctxs = [make_ctx(0)] + ([make_ctx(1)] if cfg.get("twin") else [])
+    for c in ctxs:
+        new_instance(c)
+
     probes = {}
     faults = {}
     states_seen, trans_seen, shape = set(), set(), []
@@ -473,11 +506,22 @@ def execute(plan, trace=False):
     def fault(k, n=1):
         faults[k] = faults.get(k, 0) + n
 
+    def observe(c):
+        return (bool(c.inst.is_executing), c.inst.current_state, c.cs_sub.get())
+
     status, violation = "ok", None
     foreign = None
+    digest_log = []
     try:
-        for idx, op in enumerate(plan["ops"]):
+        for idx, op0 in enumerate(plan["ops"]):
+            op, c = op0, ctxs[0]
+            if op0[0] == "@":
+                if len(ctxs) < 2:
+                    continue
+                op, c = op0[1], ctxs[1]
+                probe("twin_ops")
             k = op[0]
+            model, inst = c.model, c.inst
             pre_abs = model.abstract()
             pre_running = model.executing or (model.cur is not None and model.cur != model.default)
             # ---- model
@@ -509,17 +553,18 @@ def execute(plan, trace=False):
                 elif k == "enable":
                     if cfg["asm"]:
                         inst.on_enable()
-                        asm_enabled_once = True
+                        c.asm_enabled_once = True
                 elif k == "iter":
-                    if cfg["asm"] and asm_enabled_once:
+                    if cfg["asm"] and c.asm_enabled_once:
                         inst.on_iteration(world.now_us() * 1e-6)
                 elif k == "ntdur":
-                    if op[1] in pubs:
-                        pubs[op[1]].set(op[2])
+                    if op[1] in c.pubs:
+                        c.pubs[op[1]].set(op[2])
                         fault("nt_duration_write")
                 elif k == "restart":
-                    inst = new_instance()
-                    asm_enabled_once = False
+                    new_instance(c)
+                    inst = c.inst
+                    c.asm_enabled_once = False
                     fault("restart_nt_survives")
             except Violation:
                 raise
@@ -529,44 +574,57 @@ def execute(plan, trace=False):
             i_after = None
             if exc is None:
                 try:
-                    i_after = (bool(inst.is_executing), inst.current_state, cs_sub.get())
+                    i_after = observe(c)
                 except Exception as e:
                     exc = f"{type(e).__name__}: {e}"
             m_after = (model.executing, model.cs)
-            history.append({"i": idx, "op": op, "t0": t0, "t": world.now_us(), "ev": iev, "after": i_after, "mev": mev})
+            c.history.append({"i": idx, "op": op, "t0": t0, "t": world.now_us(), "ev": iev, "after": i_after, "mev": mev})
+            digest_log.append([idx, c.k, world.now_us(), iev, i_after])
             if tr is not None:
-                tr.append(f"[{idx}] t={world.now_us()}us op={op}  model={mev} -> {m_after}   impl={iev} -> {i_after}" + (f"  EXC {exc}" if exc else ""))
+                tr.append(f"[{idx}] t={world.now_us()}us {'machine B ' if c.k else ''}op={op}  model={mev} -> {m_after}   impl={iev} -> {i_after}" + (f"  EXC {exc}" if exc else ""))
             # ---- coverage accounting
             post_abs = model.abstract()
             states_seen.add(util.h48(post_abs))
             trans_seen.add(util.h48((pre_abs, k, post_abs)))
             if k in ("exec", "iter"):
-                shape.append((k, tuple((sdef[e[1]]["kind"], bool(sdef[e[1]].get("must_finish")), e[4]) for e in mev if e[0] == "CALL"),
+                shape.append((c.k, k, tuple((sdef[e[1]]["kind"], bool(sdef[e[1]].get("must_finish")), e[4]) for e in mev if e[0] == "CALL"),
                               any(e[0] == "DONE" for e in mev)))
             else:
-                shape.append((k,))
+                shape.append((c.k, k))
             _probes(probe, fault, k, op, mev, model, pre_abs, pre_running)
             # ---- compare
             if vclock.us != world.now_us() and exc is None and _calls_equal(mev, iev):
                 return {"status": "error", "error": f"virtual clock {vclock.us} != HAL clock {world.now_us()} at op {idx}"}
             diff = _compare(cfg, sdef, k, mev, iev, m_after, i_after, exc, exact, pre_running)
+            if diff is None and len(ctxs) == 2 and k != "adv":
+                # the other live machine must not have been touched
+                o = ctxs[1 - c.k]
+                try:
+                    got = observe(o)
+                except Exception as e:
+                    got = f"{type(e).__name__}: {e}"
+                want = (o.model.executing, o.model.cs, o.model.cs)
+                if got != want:
+                    kind = "is_executing" if not isinstance(got, tuple) or got[0] != want[0] else "current_state" if got[1] != want[1] else "current_state_nt"
+                    diff = (kind, f"the other live machine ({o.cname}) now reports (is_executing, current_state, NT current_state) = {got}, expected {want}: machines interfere")
             if diff is not None:
                 kind, msg = diff
                 if kind in owned:
-                    raise Violation(prop, f"model.{kind}", f"op {idx} {op}: {msg}", sig=f"{prop}:model.{kind}", at=idx)
+                    raise Violation(prop, f"model.{kind}", f"op {idx} {op0}: {msg}", sig=f"{prop}:model.{kind}", at=idx)
                 foreign = kind
                 probe("foreign_divergence_" + kind)
                 break
-        # ---- independent invariants over the recorded history
+        # ---- independent invariants over the recorded history (per machine)
         if foreign is None:
-            sm_invariants.check(prop, cfg, history, exact)
+            for c in ctxs:
+                sm_invariants.check(prop, cfg, c.history, exact)
     except Inconclusive:
         status = "inconclusive"
     except Violation as v:
         status, violation = "violation", v.to_json()
     nontrivial = _nontrivial(prop, probes)
     res = {"status": status, "violation": violation, "probes": probes, "faults": faults,
-           "shape": util.h48(shape), "digest": util.digest([[h["i"], h["t"], h["ev"], h["after"]] for h in history]),
+           "shape": util.h48(shape), "digest": util.digest(digest_log),
            "sim_us": clk.covered(), "nontrivial": nontrivial and status == "ok",
            "states": sorted(states_seen), "trans": sorted(trans_seen)}
     if tr is not None:
